@@ -393,7 +393,8 @@ func (k Keeper) RaiseAndResolveChallenge(ctx sdk.Context, params *ChallengeParam
 	}
 	// check Task
 	if hex.EncodeToString(taskInfo.Hash) != hex.EncodeToString(params.TaskHash) {
-		return errorsmod.Wrap(err, fmt.Sprintf("error Task hasn't been responded to yet: %s", params.TaskContractAddress))
+		// err is nil here: wrapping it would return nil and report the challenge as accepted
+		return errorsmod.Wrap(types.ErrInconsistentParams, fmt.Sprintf("the task hash does not match the task, this task address: %s", params.TaskContractAddress))
 	}
 	// check Task result
 	res, err := k.GetTaskResultInfo(ctx, params.OperatorAddress.String(), params.TaskContractAddress.String(),
